@@ -474,7 +474,7 @@ def main():
                 pid, " && lake env leanchecker GbVerif.Props.%s" % pid if tier == "thorough" else ""),
             "trusted_base": tb,
             "evaluations": evaluations, "distinct_nontrivial": nontrivial,
-            "rule": P.get("rule", ""),
+            "rule": (P.get("rule_extra", "") + " " + P.get("rule", "")).strip(),
             "samples": samples,
             "exhaustive": bool(P.get("exhaustive", {}).get(tier, False)) if isinstance(P.get("exhaustive"), dict) else bool(P.get("exhaustive", False)),
             "traces_validated_against_impl": sum(r["ok"] for r in results),
